@@ -243,32 +243,32 @@ macro_rules! dispatch_harness {
         }
     };
 }
-//@h {"id":"C12.K.fwd.push","props":["C12","C09"],"tier":"quick","replay":"none","kind":"bounded","bound":"argument lists of length 3 over 1..4 (roll/unroll: every m<=10^6, |n|<m); primitives and series accessors replaced by their contracts","timeout":900,"text":"stack_fwd push == documented push; no panic"}
+//@h {"id":"C12.K.fwd.push","props":["C12","C09"],"tier":"quick","replay":"none","kind":"bounded","bound":"argument lists of length 3 over 1..4 (roll/unroll: every m<=10^6, |n|<m); primitives and series accessors replaced by their contracts","timeout":1800,"text":"stack_fwd push == documented push; no panic"}
 dispatch_harness!(c12_fwd_push, Act::Push, false);
-//@h {"id":"C12.K.fwd.pop","props":["C12","C09","C10"],"tier":"quick","replay":"none","kind":"bounded","bound":"argument lists of length 3 over 1..4 (roll/unroll: every m<=10^6, |n|<m); primitives and series accessors replaced by their contracts","timeout":900,"text":"stack_fwd pop == documented pop incl. underflow => NaN + 0"}
+//@h {"id":"C12.K.fwd.pop","props":["C12","C09","C10"],"tier":"quick","replay":"none","kind":"bounded","bound":"argument lists of length 3 over 1..4 (roll/unroll: every m<=10^6, |n|<m); primitives and series accessors replaced by their contracts","timeout":1800,"text":"stack_fwd pop == documented pop incl. underflow => NaN + 0"}
 dispatch_harness!(c12_fwd_pop, Act::Pop, false);
-//@h {"id":"C12.K.fwd.flip","props":["C12"],"tier":"quick","replay":"none","kind":"bounded","bound":"argument lists of length 3 over 1..4 (roll/unroll: every m<=10^6, |n|<m); primitives and series accessors replaced by their contracts","timeout":900,"text":"stack_fwd flip == documented flip incl. underflow"}
+//@h {"id":"C12.K.fwd.flip","props":["C12"],"tier":"quick","replay":"none","kind":"bounded","bound":"argument lists of length 3 over 1..4 (roll/unroll: every m<=10^6, |n|<m); primitives and series accessors replaced by their contracts","timeout":1800,"text":"stack_fwd flip == documented flip incl. underflow"}
 dispatch_harness!(c12_fwd_flip, Act::Flip, false);
-//@h {"id":"C12.K.fwd.roll","props":["C12"],"tier":"quick","replay":"none","kind":"bounded","bound":"argument lists of length 3 over 1..4 (roll/unroll: every m<=10^6, |n|<m); primitives and series accessors replaced by their contracts","timeout":900,"text":"stack_fwd roll=m,n == documented big swap incl. negative n and m > depth => NaN + 0"}
+//@h {"id":"C12.K.fwd.roll","props":["C12"],"tier":"quick","replay":"none","kind":"bounded","bound":"argument lists of length 3 over 1..4 (roll/unroll: every m<=10^6, |n|<m); primitives and series accessors replaced by their contracts","timeout":1800,"text":"stack_fwd roll=m,n == documented big swap incl. negative n and m > depth => NaN + 0"}
 dispatch_harness!(c12_fwd_roll, Act::Roll, false);
-//@h {"id":"C12.K.fwd.unroll","props":["C12"],"tier":"quick","replay":"none","kind":"bounded","bound":"argument lists of length 3 over 1..4 (roll/unroll: every m<=10^6, |n|<m); primitives and series accessors replaced by their contracts","timeout":900,"text":"stack_fwd unroll=m,n == roll=m,m-n"}
+//@h {"id":"C12.K.fwd.unroll","props":["C12"],"tier":"quick","replay":"none","kind":"bounded","bound":"argument lists of length 3 over 1..4 (roll/unroll: every m<=10^6, |n|<m); primitives and series accessors replaced by their contracts","timeout":1800,"text":"stack_fwd unroll=m,n == roll=m,m-n"}
 dispatch_harness!(c12_fwd_unroll, Act::Unroll, false);
-//@h {"id":"C12.K.fwd.swap","props":["C12"],"tier":"quick","replay":"none","kind":"bounded","bound":"argument lists of length 3 over 1..4 (roll/unroll: every m<=10^6, |n|<m); primitives and series accessors replaced by their contracts","timeout":900,"text":"stack_fwd swap exchanges TOS and 2OS (no-op on fewer than two elements: unspecified, only no-panic is claimed there)"}
+//@h {"id":"C12.K.fwd.swap","props":["C12"],"tier":"quick","replay":"none","kind":"bounded","bound":"argument lists of length 3 over 1..4 (roll/unroll: every m<=10^6, |n|<m); primitives and series accessors replaced by their contracts","timeout":1800,"text":"stack_fwd swap exchanges TOS and 2OS (no-op on fewer than two elements: unspecified, only no-panic is claimed there)"}
 dispatch_harness!(c12_fwd_swap, Act::Swap, false);
-//@h {"id":"C12.K.inv.push","props":["C12"],"tier":"quick","replay":"none","kind":"bounded","bound":"argument lists of length 3 over 1..4 (roll/unroll: every m<=10^6, |n|<m); primitives and series accessors replaced by their contracts","timeout":900,"text":"stack_inv push == pop with reversed args"}
+//@h {"id":"C12.K.inv.push","props":["C12"],"tier":"quick","replay":"none","kind":"bounded","bound":"argument lists of length 3 over 1..4 (roll/unroll: every m<=10^6, |n|<m); primitives and series accessors replaced by their contracts","timeout":1800,"text":"stack_inv push == pop with reversed args"}
 dispatch_harness!(c12_inv_push, Act::Push, true);
-//@h {"id":"C12.K.inv.pop","props":["C12"],"tier":"quick","replay":"none","kind":"bounded","bound":"argument lists of length 3 over 1..4 (roll/unroll: every m<=10^6, |n|<m); primitives and series accessors replaced by their contracts","timeout":900,"text":"stack_inv pop == push with reversed args"}
+//@h {"id":"C12.K.inv.pop","props":["C12"],"tier":"quick","replay":"none","kind":"bounded","bound":"argument lists of length 3 over 1..4 (roll/unroll: every m<=10^6, |n|<m); primitives and series accessors replaced by their contracts","timeout":1800,"text":"stack_inv pop == push with reversed args"}
 dispatch_harness!(c12_inv_pop, Act::Pop, true);
-//@h {"id":"C12.K.inv.flip","props":["C12"],"tier":"quick","replay":"none","kind":"bounded","bound":"argument lists of length 3 over 1..4 (roll/unroll: every m<=10^6, |n|<m); primitives and series accessors replaced by their contracts","timeout":900,"text":"stack_inv flip == flip"}
+//@h {"id":"C12.K.inv.flip","props":["C12"],"tier":"quick","replay":"none","kind":"bounded","bound":"argument lists of length 3 over 1..4 (roll/unroll: every m<=10^6, |n|<m); primitives and series accessors replaced by their contracts","timeout":1800,"text":"stack_inv flip == flip"}
 dispatch_harness!(c12_inv_flip, Act::Flip, true);
-//@h {"id":"C12.K.inv.roll","props":["C12"],"tier":"quick","replay":"none","kind":"bounded","bound":"argument lists of length 3 over 1..4 (roll/unroll: every m<=10^6, |n|<m); primitives and series accessors replaced by their contracts","timeout":900,"text":"stack_inv roll=m,n == roll=m,m-n"}
+//@h {"id":"C12.K.inv.roll","props":["C12"],"tier":"quick","replay":"none","kind":"bounded","bound":"argument lists of length 3 over 1..4 (roll/unroll: every m<=10^6, |n|<m); primitives and series accessors replaced by their contracts","timeout":1800,"text":"stack_inv roll=m,n == roll=m,m-n"}
 dispatch_harness!(c12_inv_roll, Act::Roll, true);
-//@h {"id":"C12.K.inv.unroll","props":["C12","C09"],"tier":"quick","replay":"none","kind":"bounded","bound":"argument lists of length 3 over 1..4 (roll/unroll: every m<=10^6, |n|<m); primitives and series accessors replaced by their contracts","timeout":900,"text":"stack_inv unroll=m,n == roll=m,n (no panic: the inverse of unroll reads its own arguments)"}
+//@h {"id":"C12.K.inv.unroll","props":["C12","C09"],"tier":"quick","replay":"none","kind":"bounded","bound":"argument lists of length 3 over 1..4 (roll/unroll: every m<=10^6, |n|<m); primitives and series accessors replaced by their contracts","timeout":1800,"text":"stack_inv unroll=m,n == roll=m,n (no panic: the inverse of unroll reads its own arguments)"}
 dispatch_harness!(c12_inv_unroll, Act::Unroll, true);
-//@h {"id":"C12.K.inv.swap","props":["C12"],"tier":"quick","replay":"none","kind":"bounded","bound":"argument lists of length 3 over 1..4 (roll/unroll: every m<=10^6, |n|<m); primitives and series accessors replaced by their contracts","timeout":900,"text":"stack_inv swap == swap"}
+//@h {"id":"C12.K.inv.swap","props":["C12"],"tier":"quick","replay":"none","kind":"bounded","bound":"argument lists of length 3 over 1..4 (roll/unroll: every m<=10^6, |n|<m); primitives and series accessors replaced by their contracts","timeout":1800,"text":"stack_inv swap == swap"}
 dispatch_harness!(c12_inv_swap, Act::Swap, true);
 
-//@h {"id":"C12.K.accessor","props":["C12"],"tier":"quick","kind":"bounded","bound":"series of length 2","timeout":600,"text":"contract of the real ParsedParameters::series_as_usize / series_as_i64 used by the dispatch harnesses: elementwise cast of the series stored under the key"}
+//@h {"id":"C12.K.accessor","props":["C12"],"tier":"quick","kind":"bounded","bound":"series of length 2","timeout":1800,"text":"contract of the real ParsedParameters::series_as_usize / series_as_i64 used by the dispatch harnesses: elementwise cast of the series stored under the key"}
 #[kani::proof]
 #[kani::unwind(6)]
 fn c12_accessor() {
